@@ -37,6 +37,7 @@ inductive Action where
   | parseInt32Keep                 -- strconv.ParseInt(tv, 10, 32): syntax or range error: err, v left as it was
   | fmtUint                        -- strconv.FormatUint(uint64(tv), 10), unsigned arms only
   | parseFloatFinite (t : NumT)    -- ParseFloat(tv, 64) [then float32(f)]; a parse error keeps v, a non-finite result is refused with nil
+  | convTrunc (t : NumT)           -- float → integer: the fraction is dropped, NaN and values whose truncation does not fit are refused with nil
   | convStrict (t : NumT)           -- `conv` with the result checked (range / finiteness), else err + nil: the float `CoerceIn` arms
   deriving DecidableEq, Repr, Inhabited
 
@@ -50,6 +51,7 @@ structure Table where
 structure Ext (F : Type) where
   toIntExact : F → Option Int     -- `some n` iff finite and integral
   f2i : NumT → F → Int            -- Go's T(x) for an integer target (implementation-defined out of range)
+  trunc : F → Option Int          -- the value truncated toward zero; `none` for NaN and ±Inf
   ofInt : Int → F                 -- float64(n)
   round32 : F → F                 -- float64(float32(x))
   isFinite : F → Bool
@@ -228,6 +230,13 @@ def applyAction (ext : Ext F) (a : Action) (v : GoVal F) : GoVal F × Bool :=
      | .str s => (match ext.timeParse s with
                   | some t => (.time t, false)
                   | none => (v, true))
+     | _ => (v, false))
+  | .convTrunc t =>
+    (match v with
+     | .flt _ x =>
+       (match ext.trunc x with
+        | some n => if (t == .i32 && inRange32 n) || (t == .i64 && inRange64 n) then (.int t.kind n, false) else (.nil, true)
+        | none => (.nil, true))
      | _ => (v, false))
   | .convStrict t =>
     (match t, v with
